@@ -189,7 +189,7 @@ def impl(case):
                 es, ns, qe, qn, shape2d, proj, grid = a[:7]
                 f = None if proj is None else PROJS[proj[0]](proj[1])
                 dc = (np.array(es), np.array(ns))
-                arr = vd.convexhull_mask(dc, coordinates=(np.array(qe).reshape(shape2d), np.array(qn).reshape(shape2d)), projection=f)
+                arr = vd.convexhull_mask(dc, coordinates=(C.mkarr(qe, shape2d, case["op"]), C.mkarr(qn, shape2d, case["op"])), projection=f)
                 if list(arr.shape) != list(shape2d):
                     raise RuntimeError("wrong output shape")
                 if grid is not None:
